@@ -79,7 +79,7 @@ static void on_alarm(int s) { (void)s; alarmed = 1; }
 #define MAXF 8
 int main(int argc, char **argv) {
     const char *outp = NULL; int whole = 0; long failk[MAXF], faile[MAXF]; int nfail = 0; long shortk = -1, shortn = 0, killk = -1, retzero = -1; int kill_at_exit = 0;
-    long calltimeout = 3000, totaltimeout = 20000; int ai = 1;
+    long calltimeout = 3000, totaltimeout = 20000, maxcalls = 20000, maxrec = 3000; int ai = 1; int runaway = 0;
     for (; ai < argc; ai++) {
         if (!strcmp(argv[ai], "--")) { ai++; break; }
         else if (!strcmp(argv[ai], "-o")) outp = argv[++ai];
@@ -90,6 +90,7 @@ int main(int argc, char **argv) {
         else if (!strcmp(argv[ai], "--kill")) { char w[16] = ""; sscanf(argv[++ai], "%ld:%15s", &killk, w); kill_at_exit = !strcmp(w, "exit"); }
         else if (!strcmp(argv[ai], "--calltimeout")) calltimeout = atol(argv[++ai]);
         else if (!strcmp(argv[ai], "--totaltimeout")) totaltimeout = atol(argv[++ai]);
+        else if (!strcmp(argv[ai], "--maxcalls")) maxcalls = atol(argv[++ai]);
         else { fprintf(stderr, "sysx: bad option %s\n", argv[ai]); return 2; }
     }
     if (ai >= argc || !outp) { fprintf(stderr, "usage: sysx -o out [opts] -- prog args\n"); return 2; }
@@ -129,6 +130,8 @@ int main(int argc, char **argv) {
             if (cur_nr == SYS_write && (int)regs.rdi == -1) { char m[16] = ""; peek(pid, regs.rsi, m, 11); if (!strncmp(m, "VERIF:BEGIN", 11)) { in_window = 1; continue; } if (!strncmp(m, "VERIF:END", 9)) { in_window = whole; continue; } }
             if (!in_window) continue;
             idx++; counted = 1;
+            if (idx >= maxcalls) { runaway = 1; kill(pid, SIGKILL); waitpid(pid, &st, 0); killed_by_us = 1; counted = 0; break; }
+            if (idx >= maxrec) { counted = 0; continue; }   /* numbered but no longer recorded */
             if (!first) fputc(',', out); first = 0;
             fprintf(out, "\n{\"i\":%ld,\"nr\":%ld,\"name\":\"%s\",\"a\":[%lld,%lld,%lld,%lld]", idx, cur_nr, scname(cur_nr), (long long)regs.rdi, (long long)regs.rsi, (long long)regs.rdx, (long long)regs.r10);
             int pa = path_arg(cur_nr);
@@ -153,7 +156,7 @@ int main(int argc, char **argv) {
     if (counted && in_sys) fprintf(out, ",\"ret\":null}");
     fprintf(out, "\n],\"ncalls\":%ld,\"signals\":[", idx + 1);
     for (int i = 0; i < nsig; i++) fprintf(out, "%s%d", i ? "," : "", sigs[i]);
-    fprintf(out, "],\"exited\":%d,\"exit_code\":%d,\"term_sig\":%d,\"killed_by_sysx\":%d,\"blocked_call\":%ld,\"total_timeout\":%d}\n", exited, exit_code, term_sig, killed_by_us, blocked_idx, total_to);
+    fprintf(out, "],\"exited\":%d,\"exit_code\":%d,\"term_sig\":%d,\"killed_by_sysx\":%d,\"blocked_call\":%ld,\"total_timeout\":%d,\"runaway\":%d}\n", exited, exit_code, term_sig, killed_by_us, blocked_idx, total_to, runaway);
     fclose(out);
     return 0;
 }
